@@ -88,6 +88,11 @@ PLANS["C17"]["thorough"] += [{"cfg": c, "prof": "C17big", "runs": 2_000_000} for
 for _p in ("C01", "C03", "C05", "C06", "C07", "C08", "C09", "C10", "C12", "C13", "C20"):
     PLANS[_p]["quick"].append({"cfg": "dbg", "prof": _p + "big", "runs": 30_000})
     PLANS[_p]["thorough"] += [{"cfg": c, "prof": _p + "big", "runs": 1_500_000} for c in ("dbg", "rel")]
+# the same properties for 1-byte elements without hooks (io scenario with generic deque operations)
+# and for a drop-counting zero-sized element at extreme capacities (zst scenario)
+for _p, _x in (("C01", "io"), ("C01", "zst"), ("C03", "zst"), ("C09", "io"), ("C11", "io"), ("C11", "zst")):
+    PLANS[_p]["quick"].append({"cfg": "dbg", "prof": _p + _x, "runs": 100_000})
+    PLANS[_p]["thorough"] += [{"cfg": c, "prof": _p + _x, "runs": 4_000_000} for c in ("dbg", "rel")]
 PLANS["C04"]["quick"].append({"cfg": "dbg", "prof": "C04io", "mode": "garbage", "runs": 100_000})
 PLANS["C04"]["thorough"] += [
     {"cfg": "dbg", "prof": "C04io", "mode": "garbage", "runs": 4_000_000},
